@@ -287,3 +287,29 @@ package cipher
 //@   loop 1 invariant onlychanged(D0[:len(S0)]) && onlychanged(old(x.iv))
 //@   loop 1 decreases len(src)
 //@   modifies dst[0..len(src)], x.iv[0..len(x.iv)]
+
+// ---- HCTR (GB/T 17964): structure of one call. Both universal-hash passes run over exactly the
+// message tail M_2..M_n (plaintext tail first, then the ciphertext tail just produced - of the same
+// length, whatever room dst has beyond it), the counter mode runs tail to tail, and only
+// dst[0..len(src)] is written. (ctr itself is a frame-only assumption here.)
+//@ func (*hctr).ctr trusted
+//@   requires len(dst) >= len(src)
+//@   modifies dst[0..len(src)]
+
+//@ func (*hctr).EncryptBytes property C03
+//@   requires h != nil && h.cipher != nil && BS(id(h.cipher)) == 16
+//@   maypanic
+//@   let L := len(plaintext)
+//@   assert before call uhash#1: sameslice(arg1, plaintext[16:])
+//@   assert before call ctr#1: sameobj(arg1, ciphertext) && offof(arg1) == offof(ciphertext) + 16 && len(arg1) >= L - 16 && sameslice(arg2, plaintext[16:])
+//@   assert before call uhash#2: sameobj(arg1, ciphertext) && offof(arg1) == offof(ciphertext) + 16 && len(arg1) == L - 16
+//@   modifies ciphertext[0..len(plaintext)]
+
+//@ func (*hctr).DecryptBytes property C03
+//@   requires h != nil && h.cipher != nil && BS(id(h.cipher)) == 16
+//@   maypanic
+//@   let L := len(ciphertext)
+//@   assert before call uhash#1: sameslice(arg1, ciphertext[16:])
+//@   assert before call ctr#1: sameobj(arg1, plaintext) && offof(arg1) == offof(plaintext) + 16 && len(arg1) >= L - 16 && sameslice(arg2, ciphertext[16:])
+//@   assert before call uhash#2: sameobj(arg1, plaintext) && offof(arg1) == offof(plaintext) + 16 && len(arg1) == L - 16
+//@   modifies plaintext[0..len(ciphertext)]
